@@ -19,6 +19,7 @@ func init() {
 	ops["MatchTx"] = opMatchTx
 	ops["ScanBlock"] = opScanBlock
 	families["C10"] = runC10
+	families["C11F"] = runC11F
 }
 
 // ---- abstract transaction descriptions ------------------------------------------------
@@ -420,6 +421,53 @@ func scanCases(c *Ctx) {
 	}
 }
 
+// twoSpenderScans: a parent with two (or three) matching outputs and one spender per output that is relevant only
+// through the spent outpoint, in all block orders and under the two updating flags.
+func twoSpenderScans(c *Ctx, rounds int) {
+	perms3 := [][]int{{0, 1, 2}, {0, 2, 1}, {1, 0, 2}, {1, 2, 0}, {2, 0, 1}, {2, 1, 0}}
+	for k := 0; k < rounds; k++ {
+		kind := []string{"pk", "ms"}[k%2]
+		nsp := 2 + k%2
+		var outs []interface{}
+		for o := 0; o < nsp; o++ {
+			outs = append(outs, map[string]interface{}{"kind": kind, "item": 0, "item2": 1 + o})
+		}
+		desc := []interface{}{map[string]interface{}{"outs": outs, "ins": []interface{}{map[string]interface{}{"parent": -1, "out": 0, "sig": -1, "ext": k % 200}}}}
+		for o := 0; o < nsp; o++ {
+			desc = append(desc, map[string]interface{}{"outs": []interface{}{map[string]interface{}{"kind": "push", "item": 3, "item2": 3}},
+				"ins": []interface{}{map[string]interface{}{"parent": 0, "out": o, "sig": -1, "ext": o}}})
+		}
+		orders := perms3
+		if nsp == 3 {
+			orders = [][]int{{0, 1, 2, 3}, {3, 2, 1, 0}, {1, 2, 3, 0}, {2, 3, 1, 0}, {1, 3, 0, 2}, {3, 0, 1, 2}}
+		}
+		for _, ord := range orders {
+			c.Call(Event{"op": "ScanBlock", "desc": desc, "order": ord, "fitems": []interface{}{map[string]interface{}{"t": "item", "k": 0, "kind": kind}},
+				"salt": 5200 + k, "flags": 1 + k%2, "nbytes": 4096, "nhash": 3, "tweak": w32(uint32(k)), "src": "two-spenders"})
+		}
+	}
+}
+
+// C11F: the filter-induced index lists of the two proof builders (reported2 / reported3 of a ScanBlock event) on
+// blocks with intra-block spends -- the part of C11 that is about WHICH transactions a filter selects.
+func runC11F(c *Ctx) {
+	c.Batch = 10
+	twoSpenderScans(c, c.Pick(8, 60))
+	r := c.Rng
+	for k := 0; k < c.Pick(60, 600); k++ {
+		n := 2 + r.Intn(5)
+		desc := randDesc(c, n, 4)
+		fit := randFItems(c, desc, 4)
+		topo, rev := make([]int, n), make([]int, n)
+		for i := range topo {
+			topo[i], rev[i] = i, n-1-i
+		}
+		for _, ord := range [][]int{topo, rev, r.Perm(n)} {
+			c.Call(Event{"op": "ScanBlock", "desc": desc, "order": ord, "fitems": fit, "salt": int(r.Int31n(60000)), "flags": k % 3, "nbytes": 4096, "nhash": 3, "tweak": w32(uint32(k))})
+		}
+	}
+}
+
 func runC10(c *Ctx) {
 	r := c.Rng
 	// single transactions against a filter: result and post-state exact
@@ -537,6 +585,7 @@ func runC10(c *Ctx) {
 	}
 	// block scans: random spend DAGs in topological, reverse and random order
 	c.Batch = 10
+	twoSpenderScans(c, c.Pick(8, 60))
 	scanCases(c)
 	// chains and DAGs in which every transaction is relevant and spends several outputs of its parents, children
 	// first: the re-check of dependants must not revisit matched transactions exponentially often (60 s deadline)
